@@ -239,6 +239,38 @@ def insitu_case(ctx, idx, rng):
     ctx.event('insitu_cover_calls', seen[0])
 
 
+def soak_case(ctx, idx, rng):
+    """The repository's own test-suite with the cover / matching oracle attached to every call of minimum_vertex_cover (every per-site problem of every
+    Hamiltonian the tests compile) and of HopcroftKarp.__call__."""
+    from .. import soak
+    seen = [0, 0]
+
+    def around_cover(orig, graph):
+        res = orig(graph)
+        edges = [(u, v) for u in range(graph.num_u) for v in graph.adj_u[u]]
+        r = refs.max_matching_kuhn(graph.num_u, graph.num_v, edges)
+        seen[0] += 1
+        ctx.cur_info = {'nu': graph.num_u, 'nv': graph.num_v, 'edges': edges}
+        check_graph(ctx, graph.num_u, graph.num_v, edges, r, in_situ=True, cover=res)
+        return res
+
+    def around_hk(orig, self):
+        res = orig(self)
+        g = self.graph
+        edges = [(u, v) for u in range(g.num_u) for v in g.adj_u[u]]
+        r = refs.max_matching_kuhn(g.num_u, g.num_v, edges)
+        seen[1] += 1
+        es = set(edges)
+        ok = (isinstance(res, list) and len(res) == r and all(p in es for p in res) and len({p[0] for p in res}) == len(res) and len({p[1] for p in res}) == len(res))
+        ctx.ok('matching.maximum', ok, f'HopcroftKarp called from the test-suite returned {res} (maximum {r})', {'nu': g.num_u, 'nv': g.num_v, 'edges': edges}, True)
+        return res
+    import pytenet.bipartite_graph as bg
+    ctx.case(('soak', 'repository-test-suite'), sample={'functions_monitored': ['minimum_vertex_cover', 'HopcroftKarp.__call__']})
+    soak.run_suite(ctx, [('pytenet.bipartite_graph.minimum_vertex_cover', around_cover), (bg.HopcroftKarp.__call__, around_hk)])
+    ctx.event('soak_cover_calls', seen[0])
+    ctx.event('soak_matching_calls', seen[1])
+
+
 SPEC = {
     'id': 'C18',
     'rule': ('(edge lists of the exhaustive enumerations come in sorted, reversed and random order in rotation) every graph is solved by one HopcroftKarp object that is then called two more times (each result must be a maximum matching); exhaustive: every edge set of every partition nu x nv <= 4x4 against a brute-force maximum matching (quick and thorough); '
@@ -261,6 +293,7 @@ SPEC = {
         Workload('random', random_case, quick=600, thorough=100000),
         Workload('staircase', staircase_case, quick=400, thorough=60000),
         Workload('insitu', insitu_case, quick=60, thorough=6000),
+        Workload('suite-soak', soak_case, quick=0, thorough=1, shardable=False),
     ],
     'shards': {'quick': 4, 'thorough': 16},
     'watchdog_s': {'quick': 600, 'thorough': 7200},
